@@ -676,6 +676,10 @@ class Zeroconf(QuietLogger):
                 )
             else:
                 self.unregister_all_services()
+                # A registration that was still checking its name when the
+                # shutdown started may have completed in the meantime
+                while self.registry.has_entries:
+                    self.unregister_all_services()
         self._close()
         self.engine.close()
         self._shutdown_threads()
